@@ -64,7 +64,7 @@ impl Delivery {
             "n": self.n,
             "target": self.target.name(),
             "bytes_hex": hex(&self.bytes),
-            "msg_hex": hex(&self.msg),
+            "msg_hex": crate::rng::msg_hex(&self.msg),
             "pk_hex": hex(&self.pk),
             "origin": self.origin,
             "detail": self.detail,
@@ -88,7 +88,7 @@ impl Delivery {
             n: v.get("n")?.as_u64()? as usize,
             target: Target::parse(v.get("target")?.as_str()?)?,
             bytes: unhex(v.get("bytes_hex")?.as_str()?)?,
-            msg: unhex(v.get("msg_hex")?.as_str()?)?,
+            msg: crate::rng::msg_unhex(v.get("msg_hex")?.as_str()?)?,
             pk: unhex(v.get("pk_hex")?.as_str()?)?,
             pristine: None,
             faults: Vec::new(),
